@@ -207,6 +207,17 @@ class UDSServer(ABC):
             self.state.reset()
             self.state.session = response.diagnostic_session_type
 
+        # Keep in sync with ECU.update_state(): the client also follows the session reported by the ECU.
+        if (
+            isinstance(response, service.ReadDataByIdentifierResponse)
+            and response.data_identifier == DataIdentifier.ActiveDiagnosticSessionDataIdentifier
+        ):
+            new_session = int.from_bytes(response.data_record, "big")
+
+            if self.state.session != new_session:
+                self.state.reset()
+                self.state.session = new_session
+
         if (
             isinstance(response, service.SecurityAccessResponse)
             and response.security_access_type % 2 == 0
